@@ -49,6 +49,24 @@ theorem closed_sound_heap (P : Prog) (R : Res) (hp : ptrClosed P R = true) (hc :
   rw [hv] at this
   exact this _ rfl
 
+/-- **Indirect queries** (`pts(*v)`, used by the dataflow alias marking): if additionally `iqClosed`, then
+whatever pointer is stored in the cell a register points to is in the register's indirect set. -/
+theorem indirect_sound (P : Prog) (R : Res) (hp : ptrClosed P R = true) (hc : cgClosed P R = true)
+    (hq : iqClosed R = true)
+    {σ : State} (h : Reachable P σ) {stk : List Frame} (hstk : stk ∈ σ.threads) {fr : Frame} (hfr : fr ∈ stk)
+    {r : Nat} {o o' : Obj} {p p' : List CSel} {L : List Label}
+    (hv : fr.regs r = Val.ptr o p) (hcell : σ.mem.heap o p = Val.ptr o' p')
+    (hL : (fr.fn, r, L) ∈ R.iq) : (o'.site, absPath p') ∈ L := by
+  have hI := reachable_inv hp hc h
+  have hf := stackInv_frames stk (hI.threads stk hstk) fr hfr
+  simp only [iqClosed, List.all_eq_true] at hq
+  have h1 := hq _ hL
+  simp only [hf.1, Bool.not_true, Bool.false_or] at h1
+  obtain ⟨S, hS, hall⟩ := srcs_some h1
+  have hmem := closed_sound P R hp hc h hstk hfr hv hS
+  simp only [List.all_eq_true] at hall
+  exact subL_iff.1 (hall _ hmem) _ (closed_sound_heap P R hp hc h hcell)
+
 /-- **May-alias soundness.**  Two registers (of any two frames of any threads) that hold, in the same
 reachable state, pointers to the same location of the same object (more generally: to locations of one
 object with the same abstract path) have intersecting points-to sets: `mayAlias` answers true. -/
@@ -144,6 +162,7 @@ example : ∃ σ, Reachable exP σ ∧ ∃ stk ∈ σ.threads, ∃ fr ∈ stk, f
 #print axioms closed_sound
 #print axioms closed_sound_fn
 #print axioms closed_sound_heap
+#print axioms indirect_sound
 #print axioms may_alias_sound
 #print axioms may_alias_same_address
 
